@@ -367,6 +367,33 @@ static void run_c13_rules(void)
                   "ABT_thread_migrate moved the unit to pool %d (stream %d): not a pool of another running stream", where, where >= 0 ? rt.pool_es[where] : -1);
         sim_count("c13.migrate_any_stream_checked", 1);
     }
+    {
+        /* a stream whose scheduler has two pools: a unit in its *second* pool names that very
+         * scheduler / stream as its migration target: rejected (the unit is already there),
+         * although the scheduler's migration pool (the first one) is not the unit's pool */
+        ABT_pool a[2];
+        ABT_xstream x;
+        ABT_sched sc;
+        ABT_thread t2;
+        static const ABT_sched_predef sk[] = { ABT_SCHED_BASIC, ABT_SCHED_PRIO, ABT_SCHED_RANDWS };
+        for (int i = 0; i < 2; i++)
+            ABT_OK(ABT_pool_create_basic(ABT_POOL_FIFO, ABT_POOL_ACCESS_MPMC, ABT_TRUE, &a[i]));
+        ABT_OK(ABT_xstream_create_basic(sk[plan_n(3)], 2, a, ABT_SCHED_CONFIG_NULL, &x));
+        ABT_OK(ABT_xstream_get_main_sched(x, &sc));
+        hold_flag = 0;
+        holder_pool = ABT_POOL_NULL;
+        ABT_OK(ABT_thread_create(a[1], holder_fn, NULL, ABT_THREAD_ATTR_NULL, &t2));
+        rc = ABT_thread_migrate_to_sched(t2, sc);
+        SIM_CHECK(rc != ABT_SUCCESS, "migrate:same-sched-accepted", "ABT_thread_migrate_to_sched naming the scheduler whose second pool holds the unit was accepted");
+        rc = ABT_thread_migrate_to_xstream(t2, x);
+        SIM_CHECK(rc != ABT_SUCCESS, "migrate:same-sched-accepted", "ABT_thread_migrate_to_xstream naming the stream whose second pool holds the unit was accepted");
+        hold_flag = 1;
+        ABT_OK(ABT_thread_free(&t2));
+        SIM_CHECK(holder_pool == a[1], "migrate:moved-without-request", "a unit whose requests were all rejected ended in another pool");
+        ABT_OK(ABT_xstream_join(x));
+        ABT_OK(ABT_xstream_free(&x));
+        sim_progress();
+    }
     wl_rt_stop(&rt);
 }
 SIM_WORKLOAD("C13", "rules", run_c13_rules, 2)
